@@ -72,7 +72,7 @@ JV RunResult::to_json() const {
 }
 
 // ------------------------------------------------------------------ ops
-static KFd *find_listener(const std::string &tr, const std::string &ip) {
+KFd *find_listener(const std::string &tr, const std::string &ip) {
 	int port = tr == "ws" ? 11123 : 11122;
 	bool v6 = ip.find(':') != std::string::npos;
 	KFd *best = nullptr;
@@ -269,6 +269,7 @@ bool World::next_phase() {
 					violation("C20", rl.gets("rule", "file-neither-old-nor-new"), rl.gets("what") + ": a fresh daemon started on this file image accepts the (user/password) probes [" + who + "] as " + got + ", allowed: " + want);
 				}
 			}
+			if (shadow_send_probe()) return false;
 			if (end_mode == 1) { phase = 5; continue; }
 			bool serial = plan.hdr.getb("end_close_serial");
 			if (!serial) phase = 2;
@@ -431,6 +432,7 @@ void World::setup_from_header() {
 	wsstrict = h.getb("wsstrict");
 	step_cap = (uint64_t)h.getd("step_cap", 200000);
 	const JV *af = h.get("allocfail"); if (af && af->t == JV::Arr) for (auto &x : af->a) g_arena.fail_at.insert((uint64_t)x.d);
+	shadow_enabled = mode == "exact" && h.getb("shadow", !g_arena.fail_at.empty() || h.has("allocfail_rel"));
 	const JV *sa = h.get("alloc_stack_at"); if (sa && sa->t == JV::Arr) for (auto &x : sa->a) g_arena.stack_at.insert((uint64_t)x.d);
 	if (debug && af && af->t == JV::Arr) for (auto &x : af->a) g_arena.stack_at.insert((uint64_t)x.d);
 	const JV *te = h.get("timerfd_errs"); if (te && te->t == JV::Arr) for (auto &x : te->a) g_kernel.timerfd_create_errs.push_back((int)x.d);
